@@ -28,8 +28,8 @@ Lemma tie_target : forall (F : Type) (K : Ops F) (q : nat) (M Ci Ms : list (list
   opa_ci_dims = ["mode"; "feature1"]%string.
 Proof. intros. repeat split; reflexivity. Qed.
 
-Lemma tie_c0sqrt : forall (F : Type) (K : Ops F) (q : nat) (U0 : list (list F)) (s0 : list F),
-  c0sqrt K q U0 s0 = opa_c0sqrt_src K q U0 s0.
+Lemma tie_ci : forall (F : Type) (K : Ops F) (q : nat) (U0 : list (list F)) (s0 : list F),
+  ci_sym K q U0 s0 = opa_ci_src K q U0 s0.
 Proof. reflexivity. Qed.
 
 (* the decompositions run without sign flipping through the exact solver; whether the eigen-problem of the
